@@ -28,6 +28,45 @@ def run_config(run, cfg, seed, tag):
         run.count("real-model-configs")
         ref.unique = False
     for t in range(cfg["steps"]):
+        if cfg.get("checkpoint") and t == min(4, cfg["steps"] - 1) and not cfg.get("real"):
+            import copy
+            old_sc = sc
+            sc = copy.deepcopy(sc)            # checkpoint: the stream continues on a deep copy; the original is used for something else
+            ref.model, ref.loss = sc.model, sc.loss
+            run.ok(kind="checkpoint")
+            s_old, s_new = old_sc.snapshot(), sc.snapshot()
+            if not (s_old == s_new):           # everything the copy reports BEFORE its next call equals what the original reports
+                bad_keys = [k_ for k_ in s_old if not (s_old[k_] == s_new.get(k_))]
+                run.violation("observable:" + (bad_keys[0] if bad_keys else "keys"), f"{tag} step {t}: a deep copy of the explainer reports {bad_keys} "
+                              f"{ {k_: s_new.get(k_) for k_ in bad_keys} !r}, the original { {k_: s_old[k_] for k_ in bad_keys} !r}",
+                              {"cfg": cfg, "seed": seed, "step": t, "checkpoint": True})
+                return
+            import pickle
+            try:
+                pickle.dumps((sc.model, sc.loss))
+                harness_picklable = True
+            except Exception:
+                harness_picklable = False
+            if harness_picklable and not cfg.get("hoisted"):
+                try:
+                    e2 = pickle.loads(pickle.dumps(sc.e))
+                    snap2 = {"importance": dict(e2.importance_values), "variances": dict(e2.variances)}
+                    if hasattr(e2, "marginal_loss"):
+                        snap2.update(marginal_loss=e2.marginal_loss, model_loss=e2.model_loss, marginal_prediction=dict(e2.marginal_prediction))
+                except Exception as ex:
+                    snap2 = None
+                    run.count("explainer-not-picklable:" + type(ex).__name__)
+                if snap2 is not None and not (snap2 == s_new):
+                    bad_keys = [k_ for k_ in s_new if not (s_new[k_] == snap2.get(k_))]
+                    run.violation("observable:" + (bad_keys[0] if bad_keys else "keys"), f"{tag} step {t}: an explainer restored from pickle reports "
+                                  f"{ {k_: snap2.get(k_) for k_ in bad_keys} !r}, the pickled one { {k_: s_new[k_] for k_ in bad_keys} !r}",
+                                  {"cfg": cfg, "seed": seed, "step": t, "checkpoint": "pickle"})
+                    return
+            try:
+                old_sc.step()
+            except Exception:
+                pass
+            run.count("checkpointed-streams")
         kw = sc.call_kwargs()
         if seed % 6 == 0 and t >= 1 and sc.rnd.random() < 0.3:       # a callback fails somewhere in this call; the caller carries on
             sc.clock.fail_at_next = sc.rnd.randrange(1, 3 + 2 * cfg["d"] * cfg["n_inner"])
